@@ -470,6 +470,16 @@ class Run:
                 v.props.append('C01')
                 v.detail['differs_from_scratch_run'] = True
             raise
+        if prev is not None and self.cfg.get('scratch_diff') and \
+                not self.metadata_games and real.sched is None:
+            # model-free differential, in the words of C01: the same build,
+            # by the implementation itself, without its cache
+            if self.differs_from_scratch(step, ctx):
+                raise Violation(
+                    ['C01'], 'O-diff', 'incremental-differs-from-scratch',
+                    {'note': 'the model agreed with the incremental run'}, i)
+            sb.restore(post)
+            self.probe('scratch-differentials')
         if model.kind == 'ok':
             self.stats['commits'] += 1
             T, rec = commit(mb)
@@ -564,7 +574,11 @@ class Run:
                     for p, n in snap.items()}
         if (scratch.kind, scratch.exc) != (real.kind, real.exc):
             return True
-        if scratch.kind == 'ok' and scratch.value != real.value:
+        if scratch.kind != 'ok':
+            # a failing build is rolled back to its own pre-state (C02); only
+            # the exception type is comparable
+            return False
+        if scratch.value != real.value:
             return True
         return shape(post2) != shape(ctx['post'])
 
